@@ -3,7 +3,7 @@ CONSTANTS MaxNodes = 3
 MaxDepth = 3
 DocMode = FALSE
 Vocab <- VocabQuick
-TextKinds <- TK4
+TextKinds <- TK3
 OptSets <- Opts4
 INVARIANTS BuilderSound DesignRefines Emit
 CHECK_DEADLOCK FALSE
